@@ -21,7 +21,8 @@ func init() {
 				Run: func(c *core.Ctx, idx int) { rel.CheckUniverse(c, rel.UniverseByIndex(idx), "C07") }},
 			{Name: "laws/generated-triples", Count: core.FixedCount(60000, 1200000), Run: func(c *core.Ctx, idx int) { rel.RunRandomTriples(c) }},
 		},
-		Repro: map[string]func() (bool, string){"c07.nan-rank": rel.ReproNaNRank, "c07.complex-rank": rel.ReproComplexRank},
+		Repro: map[string]func() (bool, string){"c07.nan-rank": rel.ReproNaNRank, "c07.complex-rank": rel.ReproComplexRank,
+			"c07.map-behind-interface": func() (bool, string) { return rel.ReproMapBehindInterface("rank") }},
 	})
 	core.Register(&core.Property{
 		ID:    "C08",
@@ -36,6 +37,7 @@ func init() {
 			{Name: "copies-and-mutations", Count: core.FixedCount(40000, 800000), Run: func(c *core.Ctx, idx int) { rel.RunCopiesAndMutations(c) }},
 			{Name: "cyclic-battery", Count: core.FixedCount(rel.CyclicCases(), rel.CyclicCases()), Run: rel.RunCyclic},
 		},
-		Repro: map[string]func() (bool, string){"c08.nan-compare": rel.ReproNaNRank, "c08.depth-stuck": rel.ReproDepthStuck},
+		Repro: map[string]func() (bool, string){"c08.nan-compare": rel.ReproNaNRank, "c08.depth-stuck": rel.ReproDepthStuck,
+			"c08.map-behind-interface": func() (bool, string) { return rel.ReproMapBehindInterface("compare") }},
 	})
 }
